@@ -191,9 +191,9 @@ pub fn long_prefilter_once<const HLEN: usize>(family: u8, mode: u8) {
 
 inst!(long_inert_f0_40, [props=C03+C14 tier=quick cfg=x86std t=1800 role=long-needle-route-inert uw=@LONGNEW;_imp.:35;oracle:35], 4,
     long_route::<40>(0, 1, true));
-inst!(long_pre_f3_sse2_40, [props=C11+C05+C14 tier=quick cfg=x86std t=1800 role=long-needle-prefilter-fallback uw=@LONGNEW;byte_by_byte:18;One::find_raw.0:6;find_prefilter.0:4;oracle:35], 4,
+inst!(long_pre_f3_sse2_40, [props=C11+C05+C14+C03+C09+C10 tier=quick cfg=x86std t=1800 role=long-needle-prefilter-fallback uw=@LONGNEW;byte_by_byte:18;One::find_raw.0:6;find_prefilter.0:4;oracle:35], 4,
     long_prefilter_once::<40>(3, 1));
-inst!(long_pre_f0_sse2_40, [props=C11+C05 xprops=C14 tier=quick cfg=x86std t=1800 role=long-needle-prefilter-vector uw=@LONGNEW;byte_by_byte:18;One::find_raw.0:6;find_prefilter.0:4;oracle:35], 4,
+inst!(long_pre_f0_sse2_40, [props=C11+C05+C03+C09+C10 xprops=C14 tier=quick cfg=x86std t=1800 role=long-needle-prefilter-vector uw=@LONGNEW;byte_by_byte:18;One::find_raw.0:6;find_prefilter.0:4;oracle:35], 4,
     long_prefilter_once::<40>(0, 1));
 
 // ---------------------------------------------------------------------------
